@@ -107,6 +107,7 @@ class SimPool:
         self.joiners = []
         self.map_calls = []        # [(func, items, chunksize)] as observed
         self.lost_tasks = 0
+        self.result_handler_dead = False
         sim.pools.append(self)
         for _ in range(processes):
             self._spawn_worker()
@@ -154,9 +155,31 @@ class SimPool:
             me.tags["in_func"] = False
             k.yield_point("W:report")
             me.tags["holding"] = None
-            res._set(i, value)
+            self._deliver(res, i, value)
             completed += 1
         k.yield_point("W:exit")
+
+    def _deliver(self, res, i, value):
+        """The result travels through a pipe: pickled by the worker (a failure to pickle is itself reported, as
+        multiprocessing.pool.MaybeEncodingError), un-pickled by the pool's result-handler thread in the parent.  An
+        exception while un-pickling kills that thread (CPython only guards against OSError/EOFError there): this and
+        every later result is lost."""
+        import pickle
+        from multiprocessing.pool import MaybeEncodingError
+        try:
+            blob = pickle.dumps(value)
+        except Exception as e:      # noqa: BLE001
+            blob = pickle.dumps((False, MaybeEncodingError(e, value[1])))
+            self.k._log("pool", self.k.current, "result not picklable: %s" % type(e).__name__)
+        if self.result_handler_dead:
+            return
+        try:
+            value = pickle.loads(blob)
+        except Exception as e:      # noqa: BLE001
+            self.result_handler_dead = True
+            self.k._log("pool", self.k.current, "result handler died un-pickling a result: %s" % type(e).__name__)
+            return
+        res._set(i, value)
 
     def _get_task(self):
         k = self.k
